@@ -267,6 +267,9 @@ def check(ctx, run):
     run.rule("R4", "getters: for every (getter, stored tag) the value is returned through value-preserving conversions of the tag's own member, or the path passes STRCMP_EQUAL(own tag, type) which fails the test", floor=36, exhaustive=True)
     run.rule("R5", "non-integer kinds: different tags never compare equal; bool/pointer/function pointer compare their own members; double passes (this, other, this tolerance) to doubles_equal; buffers compare size before MemCmp with that size", floor=40)
 
+    run.rule("R6", "doubles: doubles_equal folded over {NaN, -Inf, +Inf, finite lattice}^2 x thresholds against the IEEE oracle (NaN never equal, same infinity equal, opposite infinities different, finite by |d1-d2| <= tolerance), with an isinf seam that does not report the sign (shared with C03.R2)", floor=300, exhaustive=True)
+    from .C03 import doubles_equal_rule
+    doubles_equal_rule(prog, run, "R6")
     tab, eq, pname = integer_equality_rules(prog, run, "R1", "R2", "R3", thorough=ctx.thorough)
 
     # ---------------- R5 ---------------------------------------------------------
@@ -335,6 +338,15 @@ def check(ctx, run):
             wit.append({"sizes": sizes, "MemCmp answers": mc, "equals": r, "MemCmp asked": asked})
             okb = okb and good
         run.ob("R5", "buffers: sizes compared first, then MemCmp over that size", eq.site, okb, witness=wit)
+        # the very same buffer on both sides with different lengths is still a different value (right buffer, wrong length)
+        oks, wit = True, []
+        for sizes in ((3, 4), (4, 3), (0, 2), (3, 3)):
+            r, seen = fold_equals("const unsigned char*", "const unsigned char*", 7000, 7000, ("memoryBufferValue_",), False, sizes=sizes, memcmp=0)
+            want = 1 if sizes[0] == sizes[1] else 0
+            wit.append({"sizes": sizes, "same buffer address": True, "equals": r})
+            oks = oks and r == want
+        run.ob("R5", "buffers: one buffer address on both sides compares equal iff the lengths are equal", eq.site, oks, witness=wit,
+               what="" if oks else "the length is ignored when expectation and actual call point at the same buffer")
         oko, wit = True, []
         i_o = MEMBERS.index("constObjectPointerValue_")
         for comp, ans in ((500, 1), (500, 0), (0, 1)):
